@@ -23,6 +23,7 @@ func init() {
 	reg("C14", "C14.R3", "E1", "evaluation methods are pure", 5, ruleCheckPure)
 	reg("C14", "C14.R5", "E2", "tree construction keeps the configured operands; operands of a nested node are spliced only for and/or", 1, ruleTreeConstruction)
 	reg("C14", "C14.R6", "E7", "check_type: each documented type name selects that type's node predicate, with its own already-listed marker", 6, ruleCheckTypeTable)
+	reg("C14", "C14.R7", "E2", "the length early-exit of field operators excludes the operators that can match on less (contains_any, regex)", 1, ruleLengthShortCut)
 	reg("C14", "C14.R4", "E2", "legacy match_fields: or / and shapes and inversion", 2, ruleLegacyMatch)
 }
 
@@ -808,4 +809,97 @@ func ruleCheckTypeTable(c *Ctx, r *Rule) {
 	}
 	sort.Strings(missing)
 	r.Ob(len(missing) == 0, "check_type|all-names", fn.Pos(), "every documented type name has a case"+ifs(len(missing) > 0, "; missing: "+strings.Join(missing, ",")))
+}
+
+// ruleLengthShortCut: a field operator may answer "no match" from the length of the value alone only
+// when a match really needs that many bytes. For the operators whose primitive matches on any single
+// character or by pattern (bytes.ContainsAny / IndexAny, regexp) the configured values' lengths say
+// nothing about the shortest matching input, so the length early-exit must exclude them.
+func ruleLengthShortCut(c *Ctx, r *Rule) {
+	var check *ssa.Function
+	for _, fn := range c.ModFuncs {
+		if c.pkgOf(fn) == "pipeline/doif" && fn.Name() == "Check" && recvNamed(fn) != nil && recvNamed(fn).Obj().Name() == "fieldOpNode" {
+			check = fn
+		}
+	}
+	if check == nil {
+		r.Unresolved("doif fieldOpNode.Check")
+		return
+	}
+	isOp := func(v ssa.Value) bool { return isLoadOfField(stripConv(v), doifPkg, "fieldOpNode", "op") }
+	// operator constants whose case uses a per-character or pattern primitive
+	loose := map[int64]string{}
+	guards := c.guards(check)
+	for _, b := range check.Blocks {
+		var ks []int64
+		for _, cl := range guards[b] {
+			if len(cl) != 1 {
+				continue
+			}
+			if op, x, y, ok := cmpLit(cl[0]); ok && op == token.EQL && isOp(x) {
+				if k, isK := constInt(y); isK {
+					ks = append(ks, k)
+				}
+			}
+		}
+		if len(ks) == 0 {
+			continue
+		}
+		for _, in := range b.Instrs {
+			ci, ok := in.(ssa.CallInstruction)
+			if !ok {
+				continue
+			}
+			f := calleeFunc(ci)
+			if f == nil {
+				continue
+			}
+			q := qualName(f)
+			if q == "bytes.ContainsAny" || q == "bytes.IndexAny" || q == "bytes.ContainsRune" || strings.HasPrefix(q, "(*regexp.Regexp).") {
+				for _, k := range ks {
+					loose[k] = q
+				}
+			}
+		}
+	}
+	r.Inst(1)
+	r.Ob(len(loose) >= 2, c.fnName(check)+"|loose-operators", check.Pos(), fmt.Sprintf("operators matched by a per-character or pattern primitive: %d found", len(loose)))
+	n := 0
+	for _, ret := range returnsOf(check) {
+		if b, isB := constBool(retResults(ret)[0]); !isB || b {
+			continue
+		}
+		byLen := false
+		excluded := map[int64]bool{}
+		for _, l := range c.unitGuards(ret) {
+			op, x, y, ok := cmpLit(l)
+			if !ok {
+				continue
+			}
+			if (op == token.LSS || op == token.LEQ) && isLoadOfField(stripConv(y), doifPkg, "fieldOpNode", "minValLen") {
+				byLen = true
+			}
+			if (op == token.GTR || op == token.GEQ) && isLoadOfField(stripConv(x), doifPkg, "fieldOpNode", "minValLen") {
+				byLen = true
+			}
+			if op == token.NEQ && isOp(x) {
+				if k, isK := constInt(y); isK {
+					excluded[k] = true
+				}
+			}
+		}
+		if !byLen {
+			continue
+		}
+		n++
+		var missing []string
+		for k, q := range loose {
+			if !excluded[k] {
+				missing = append(missing, fmt.Sprintf("%d (%s)", k, q))
+			}
+		}
+		sort.Strings(missing)
+		r.Ob(len(missing) == 0, fmt.Sprintf("%s|length-exit#%d", c.fnName(check), n), ret.Pos(), "the 'shorter than the shortest value' early exit excludes every operator that can match on less"+ifs(len(missing) > 0, "; not excluded: operator "+strings.Join(missing, ", ")))
+	}
+	r.Ob(n >= 1, c.fnName(check)+"|length-exits", check.Pos(), fmt.Sprintf("%d length early exits examined", n))
 }
